@@ -28,7 +28,7 @@ LEVEL = "fault_enumeration"
 WRAP = ("-Wl,--wrap=fopen,--wrap=fwrite,--wrap=fflush,--wrap=fclose",)
 UNKNOWN_CAP = 1000000
 # (fault/abort runs, prefix cuts) planned per tier
-BUDGET = {"quick": (16000, 30000), "thorough": (250000, 200000), "replay": (10 ** 9, 10 ** 9)}
+BUDGET = {"quick": (16000, 30000), "thorough": (180000, 150000), "replay": (10 ** 9, 10 ** 9)}
 
 
 def nproc():
